@@ -48,6 +48,14 @@ fn bases() -> Vec<(&'static str, Frame)> {
         ("DF17-TC31", frames::df17(5, A, frames::me_tc31(2))),
         ("DF18-TC11", frames::df18(2, A, frames::me_airpos(11, 0, 0, frames::ac12_for_alt(36000), 0, 1, 93000, 51372))),
         ("DF11-IC37", frames::df11(5, A, 37)),
+        // more all-call bases: the low bits of the CRC differ, which matters for anything that treats
+        // the interrogator-code bits of the parity field arithmetically
+        ("DF11-b", frames::df11(5, 0x3C6586, 0)),
+        ("DF11-c", frames::df11(4, 0xA1B2C3, 0)),
+        ("DF11-d", frames::df11(7, 0x4CA2D7, 5)),
+        ("DF11-e", frames::df11(0, 0x71BC00, 0)),
+        ("DF11-f", frames::df11(5, 0xE48F01, 127)),
+        ("DF11-g", frames::df11(6, 0x06A0C5, 64)),
     ]
 }
 
@@ -96,6 +104,30 @@ fn check_get_message(ctx: &mut Ctx, name: &str, base: &Frame, mask: u128, kind: 
     ctx.eval();
     ctx.count(if want { "expected-accept" } else { "expected-reject" });
     ctx.outcome(&(name, want, got, kind));
+    if want != got && !after_base {
+        // alone on a fresh thread?
+        let hx = f.hex();
+        let alone = std::thread::Builder::new().name("sqv-fresh".into()).spawn(move || get_message(&hx).is_some()).ok().and_then(|t| t.join().ok()).unwrap_or(got);
+        if alone == want {
+            // the verdict depends on what was decoded before: look for a replayable history -
+            // the same frame repeated n times (counters), on a fresh thread
+            let hx = f.hex();
+            let repeat = std::thread::Builder::new()
+                .name("sqv-fresh".into())
+                .spawn(move || (1..=2048usize).find(|_| get_message(&hx).is_some() != want))
+                .ok()
+                .and_then(|t| t.join().ok())
+                .flatten();
+            let hex = f.hex();
+            ctx.violation(
+                &format!("C04/get_message-history/{name}"),
+                &hex,
+                || format!("{name} with {kind} error ({hex}, remainder {:06X}): rejected when decoded alone, but accepted after earlier frames{}", f.remainder(), repeat.map(|n| format!(" - e.g. as the {n}th consecutive presentation of the same corrupted frame")).unwrap_or_default()),
+                || json!({"kind": "gm", "hex": hex, "repeat": repeat}),
+            );
+            return;
+        }
+    }
     if want != got {
         let hex = f.hex();
         ctx.violation(
@@ -162,8 +194,35 @@ fn table_batch(ctx: &mut Ctx, cfg: &Cfg, pname: &str, pre: &[Snap], name: &str, 
         return;
     }
     let mid = lines.len() / 2;
+    let before = ctx.out.viol_by_site.values().sum::<u64>() + ctx.out.known_hits.values().sum::<u64>();
     table_batch(ctx, cfg, pname, pre, name, &lines[..mid]);
     table_batch(ctx, cfg, pname, pre, name, &lines[mid..]);
+    let after_n = ctx.out.viol_by_site.values().sum::<u64>() + ctx.out.known_hits.values().sum::<u64>();
+    if after_n == before {
+        // the batch changes the table although neither half does: the effect needs a longer run of
+        // lines (state carried across lines); report the batch itself, shrunk from the front
+        let mut lo = 0usize;
+        let mut step = lines.len() / 2;
+        while step > 0 {
+            if lo + step < lines.len() {
+                let t = restore(pre);
+                let c = join_lines(&lines[lo + step..].iter().map(|(h, _)| h.as_bytes().to_vec()).collect::<Vec<_>>());
+                let o = run_file(cfg, &c, &t);
+                if !o.is_ok() || snapshot(&t) != pre {
+                    lo += step;
+                    continue;
+                }
+            }
+            step /= 2;
+        }
+        let window: Vec<String> = lines[lo..].iter().map(|(h, _)| h.clone()).collect();
+        ctx.violation(
+            &format!("C04/table-history/{pname}/{name}/{}", cfg.label()),
+            &format!("{} lines ending with {}", window.len(), window.last().cloned().unwrap_or_default()),
+            || format!("a run of {} consecutive {name} frames that all fail parity changed the {pname} table, although no shorter tail of it does (first {}, last {})", window.len(), window.first().cloned().unwrap_or_default(), window.last().cloned().unwrap_or_default()),
+            || json!({"kind": "table-run", "lines": window, "pre": pname, "cfg": cfg.opts}),
+        );
+    }
 }
 
 /// lines alternate valid base / corrupted copy; the table must stay what it is after the valid frame
@@ -295,6 +354,25 @@ fn run(ctx: &mut Ctx) {
 }
 
 fn replay(ctx: &mut Ctx, case: &Value) {
+    if case.get("kind").and_then(|x| x.as_str()) == Some("table-run") {
+            let opts: Vec<String> = case.get("cfg").and_then(|c| c.as_array()).map(|a| a.iter().filter_map(|x| x.as_str().map(String::from)).collect()).unwrap_or_default();
+            let o: Vec<&str> = opts.iter().map(|s| s.as_str()).collect();
+            let cfg = Cfg::new(&o);
+            let pname = case.get("pre").and_then(|x| x.as_str()).unwrap_or("empty");
+            let lines: Vec<Vec<u8>> = case.get("lines").and_then(|x| x.as_array()).map(|a| a.iter().filter_map(|x| x.as_str().map(|s| s.as_bytes().to_vec())).collect()).unwrap_or_default();
+            for (n, pre) in prestates() {
+                if n == pname {
+                    let t = restore(&pre);
+                    let oc = run_file(&cfg, &join_lines(&lines), &t);
+                    let same = snapshot(&t) == pre;
+                    crate::run::say(&format!("{} consecutive frames failing parity into the {pname} table: outcome {}, table unchanged: {same}", lines.len(), oc.label()));
+                    if !oc.is_ok() || !same {
+                        ctx.violation("C04/table-history", "replay", || "frames failing parity changed the table".into(), || case.clone());
+                    }
+                }
+            }
+            return;
+        }
     let hex = case.get("hex").and_then(|x| x.as_str()).unwrap_or("").to_string();
     let Some(f) = Frame::from_hex(&hex) else {
         ctx.machinery("bad hex in replay");
@@ -305,6 +383,12 @@ fn replay(ctx: &mut Ctx, case: &Value) {
             let want = expect_accept(&f);
             if let Some(b) = case.get("after").and_then(|x| x.as_str()) {
                 crate::run::say(&format!("first the valid frame {b} (accepted: {})", get_message(b).is_some()));
+            }
+            if let Some(n) = case.get("repeat").and_then(|x| x.as_u64()) {
+                for _ in 1..n {
+                    let _ = get_message(&hex);
+                }
+                crate::run::say(&format!("the same corrupted frame was presented {} times before", n - 1));
             }
             let got = get_message(&hex).is_some();
             crate::run::say(&format!("{hex}: reference remainder {:06X} => expected {}, get_message {}", f.remainder(), if want { "accept" } else { "reject" }, if got { "accepts" } else { "rejects" }));
